@@ -86,7 +86,8 @@ def _create_new_header(
     new_reuse_info = extract_reuse_info(result)
     if (
         reuse_info.copyright_lines != new_reuse_info.copyright_lines
-        and reuse_info.spdx_expressions != new_reuse_info.spdx_expressions
+        or set(map(str, reuse_info.spdx_expressions))
+        != set(map(str, new_reuse_info.spdx_expressions))
     ):
         _LOGGER.debug(
             _(
